@@ -53,7 +53,8 @@ import (
 )
 
 type ncStep struct {
-	Op     string  `json:"op"`     // req | flush
+	Op     string  `json:"op"` // req | flush | inject (On: make mergeBatches panic from now on / stop)
+	On     bool    `json:"on"`
 	Method string  `json:"method"` // default POST
 	Path   string  `json:"path"`   // path + query
 	DB     *string `json:"db"`     // x-arc-database header, absent when null
@@ -161,6 +162,9 @@ func ncRunCase(c ncCase, root string, emit func(ncLine)) error {
 	emit(ncLine{Case: c.ID, Ev: "begin"})
 	for k, s := range c.Steps {
 		switch s.Op {
+		case "inject":
+			ingest.VerifNoCrashPanic.Store(s.On)
+			emit(ncLine{Case: c.ID, Step: k, Ev: "status", Status: 0})
 		case "flush":
 			done := make(chan error, 1)
 			go func() { done <- buf.FlushAll(context.Background()) }() // bare goroutine, as periodicFlush
@@ -216,6 +220,7 @@ func ncRunCase(c ncCase, root string, emit func(ncLine)) error {
 		}
 		emit(ncLine{Case: c.ID, Step: k, Ev: "settled"})
 	}
+	ingest.VerifNoCrashPanic.Store(false)
 	closed := make(chan struct{})
 	go func() { buf.Close(); close(closed) }() //nolint:errcheck
 	<-closed
